@@ -161,6 +161,19 @@ claim("C17", "other",
       "decision-table extraction from MIR + exhaustive evaluation of the extracted formulas + dataflow of call arguments",
       "DESIGN.md §3 C17")
 
+claim("C05", "other",
+      "API-surface, heartbeat and admission clauses decided statically: from the compiler's effective-visibility table the "
+      "only externally reachable source of a mutable node state is self_node_state (own id), the public &mut entry points are "
+      "an explicit table, internal mutators/ClusterState are not nameable; a digest entry for the own id reaches no writer; "
+      "own heartbeat incremented only via self_node_state() from constructor/process_message/gossip round; tombstone GC only "
+      "from the gossip round; for all orderings the owner's copy rejects every delta whose max/gc/from do not exceed its own "
+      "max (stale or duplicated honest deltas); sender offers only when ahead; key-values only under their own header.",
+      "NOT decided: 'no message from honest peers alters own key-values' as such — it additionally needs the honest-copy "
+      "invariant (no copy ahead of the owner), an induction over histories (C03's undecided clause). Assumes one incarnation "
+      "per ChitchatId.",
+      "effective-visibility/API inventory + decision-table extraction + ordering enumeration + caller inventories",
+      "DESIGN.md §3 C05")
+
 ALL = ["C%02d" % i for i in range(1, 21)]
 PENDING_REASON = "check under construction in this session (rules designed in DESIGN.md §3, not yet armed)"
 
